@@ -40,6 +40,8 @@ func AsTargets() []func() interface{} {
 		func() interface{} { return new(gen.UWrapTransparent) },
 		func() interface{} { return new(*gen.RLeafIs) },
 		func() interface{} { return new(*gen.UWrapCauseOnly) },
+		func() interface{} { return new(*gen.UWrapAsSelf) },
+		func() interface{} { return new(*gen.ULeafAs) },
 	}
 }
 
